@@ -35,13 +35,14 @@ import gin
 from gin import config_parser as cp
 
 BOUNDS = ('statement lists of 1..6 statements over 9 statement kinds (binding with 0-2 scope '
-          'parts, 5 selector spellings x 4 parameters, macro with/without scope, 4 import '
-          'forms, include), values from 24 literal/reference/macro/container forms; 8 named '
-          'layouts (plain, blank_lines, comments, continuations, spacing, block, '
-          'block_messy, everything) with seeded decoration, each with/without final '
-          'newline; malformed names: 19 defect patterns x 5 positions x 3 blank kinds. '
-          'quick: 1500 lists (one layout each, all 8 for the first 60) + every malformed '
-          'case; thorough: 12000 lists x 8 layouts.')
+          'parts, 5 selector spellings x 4 parameters, macro with/without scope, the 4 import '
+          'forms, include), values from 16 literals, @references, %macros and containers of '
+          'them to depth 2; 8 named layouts (plain, blank_lines, comments, continuations, '
+          'spacing, block, block_messy, everything) with seeded decoration, each with/without '
+          'final newline; 31 malformed-name patterns (inner blank x 3 blank kinds, empty '
+          'component, misplaced separator) x 6 positions = 185 texts; 3 import-alias pairs x '
+          '16 blank-line offsets. quick: 1500 lists (one layout each, all 8 for the first 60); '
+          'thorough: 8000 lists x 8 layouts.')
 EXHAUSTIVE = {'quick': False, 'thorough': False}
 
 LAYOUTS = ['plain', 'blank_lines', 'comments', 'continuations', 'spacing', 'block',
@@ -138,7 +139,7 @@ def cases(tier, rng):
                ['import os.path as osp', 'import os.path'],
                ['from json import decoder as d1', 'from json import decoder as d2']):
     yield {'mode': 'import_tie', 'lines': pair}
-  n = 1500 if tier == 'quick' else 12000
+  n = 1500 if tier == 'quick' else 8000
   for i in range(n):
     stmts = _gen_stmts(rng)
     names = LAYOUTS if (tier != 'quick' or i < 60) else [LAYOUTS[i % len(LAYOUTS)]]
@@ -421,7 +422,12 @@ def check(case):
     for name, content in INCLUDES.items():
       with open(os.path.join(tmp, name), 'w') as fh:
         fh.write(content)
-    reference = _parse_into_config(render(case['stmts'], plain, tmp)[0])
+    try:
+      reference = _parse_into_config(render(case['stmts'], plain, tmp)[0])
+    except Exception as e:   # pylint: disable=broad-except
+      fail('layout_accepted', 'parse_config accepts the flat one-per-line rendering', _exc(e),
+           'reference exc=%s' % type(e).__name__)
+      return fails
     text = render(case['stmts'], lay, tmp)[0]   # same decoration (same seed), absolute includes
     try:
       got = _parse_into_config(text)
@@ -499,6 +505,7 @@ def _check_import_tie(case):
     out = gin.config_str()
     if out not in outs:
       outs.append(out)
+  outs.sort()
   if len(outs) > 1:
     return [{'clause': 'same_configuration', 'expected': 'one config_str() for 16 layouts '
              '(0..15 leading blank lines)', 'observed': _short(outs),
